@@ -320,6 +320,10 @@ def gen_lane_scripts(rng, n):
                 continue
             if c == "m" and (src or qi) or c == "M" and (not src or act) or c in "XZ" and not (src and act):
                 continue
+            if c in "MXZ" and susp > 0:      # a source whose target is suspended cannot finish arming / cancelling: not quiescent
+                continue
+            if c == "s" and src and not act:
+                continue
             if c == "v" and (qi or src) or c == "V" and not qi:
                 continue
             if c == "x" and "x" in s or c == "y" and "y" in s:
